@@ -82,7 +82,7 @@ func genC18(r *Rnd, t Tier) *Case {
 	for i, n := 0, r.Range(1, 5); i < n; i++ {
 		st := ServerStep{}
 		if spec.Proto == "http" {
-			st.Status = pick(r, 200, 200, 201, 404, 400, 429, 500, 501, 502, 503, 503, 429)
+			st.Status = pick(r, 200, 200, 201, 404, 400, 429, 500, 501, 502, 503, 503, 429, pick(r, 504, 507, 511, 512, 520, 529, 598, 599, 499, 300, 204))
 			if (st.Status == 429 || st.Status == 503) && r.P(0.6) {
 				st.RetryAfter = r.Range(1, 3)
 			}
@@ -95,6 +95,7 @@ func genC18(r *Rnd, t Tier) *Case {
 		} else {
 			st.Code = int(pick(r, codes.OK, codes.OK, codes.Unavailable, codes.DeadlineExceeded, codes.ResourceExhausted, codes.NotFound, codes.Internal, codes.Aborted, codes.Unavailable))
 			st.PlainErr = r.P(0.08)
+			st.Wrapped = st.Code != 0 && r.P(0.25)
 		}
 		if r.P(0.4) {
 			st.Delay = time.Duration(r.Range(1, 30)) * unit
@@ -254,12 +255,7 @@ func checkC18(c *checkCtx) {
 				}
 			}
 		} else {
-			wantErr := error(nil)
-			if last.PlainErr {
-				wantErr = errC
-			} else if last.Code != 0 {
-				wantErr = status.Error(codes.Code(last.Code), "scripted")
-			}
+			wantErr := scriptedGRPCErr(last)
 			switch {
 			case exceeded:
 				if !errors.Is(ret.Err, retrypolicy.ErrExceeded) {
@@ -358,6 +354,8 @@ func briefSteps(spec *AdapterSpec) []string {
 			out = append(out, fmt.Sprint(s.Status))
 		case s.PlainErr:
 			out = append(out, "plain-error")
+		case s.Wrapped:
+			out = append(out, "wrapped "+codes.Code(s.Code).String())
 		default:
 			out = append(out, codes.Code(s.Code).String())
 		}
